@@ -10,7 +10,9 @@
                  else -> test
 
    The environment mints blocks of the other validators in their own slots and delivers any known block to the node at any
-   moment (Import = node.processBlock: the block becomes best when it is better: total score, then smaller id).
+   moment (Import = node.processBlock).  Whether an imported or own block becomes the best block is the BFT engine's
+   decision (bft.Select: quality, then total score, then smaller id) and is left open here: the loop only READS the best
+   block, and every property below is about what it read.
    Who owns which slot after a parent is an oracle: Owner(parent, k); here a rotation that depends on the parent's number,
    so that the same wall-clock second can belong to the node on two different parents.
    Time: the node's own steps take no time; Tick advances the clock by one second only while the node is blocked (asleep
@@ -84,7 +86,8 @@ PackOK ==
      /\ blocks' = (b :> [par |-> flow.par, num |-> blocks[flow.par].num + 1, time |-> flow.when, score |-> flow.score,
                          signer |-> Me]) @@ blocks
      /\ known' = known \cup {b} /\ seenAt' = (b :> now) @@ seenAt
-     /\ best' = IF blocks'[b].score > blocks[best].score \/ (blocks'[b].score = blocks[best].score /\ b < best) THEN b ELSE best
+     \* the fork choice is the BFT engine's (quality before score); a child always beats its own parent
+     /\ best' \in (IF flow.par = best THEN {b} ELSE {b, best})
      /\ packs' = packs \cup {[b |-> b, at |-> now, flow |-> flow, bestThen |-> best]}
   /\ pc' = "top"
   /\ UNCHANGED <<now, flow, wake>>
@@ -125,7 +128,8 @@ Import ==
   \E b \in DOMAIN blocks \ known :
     /\ blocks[b].par \in known
     /\ known' = known \cup {b} /\ seenAt' = (b :> now) @@ seenAt
-    /\ best' = IF Better(b, best) THEN b ELSE best
+    \* bft.Select: quality first, then score, then id - NOT a function of the score alone; a child beats its own parent
+    /\ best' \in (IF blocks[b].par = best THEN {b} ELSE {b, best})
     /\ UNCHANGED <<now, blocks, pc, flow, wake, packs>>
 
 Next == Synced \/ Top \/ PackOK \/ PackFail \/ Retry \/ Sleep \/ Wake \/ Tick \/ Mint \/ Import
